@@ -191,7 +191,8 @@ def _persist_election(job):
     n = job.get("n", 40)
     pre, cur = synth.make_election(n=n, states=states, seed=job["seed"], frac_reporting=1.0)
     rng = np.random.default_rng(job["seed"] + 77)
-    k = 3 if job["gate"] == "fail" else job.get("n_reporting", int(round(n * 0.7)))
+    # the failing side of the gate includes the boundary of no reporting unit at all
+    k = [3, 0, 1, 2][job["seed"] % 4] if job["gate"] == "fail" else job.get("n_reporting", int(round(n * 0.7)))
     rep = set(rng.choice(n, size=k, replace=False).tolist())
     pev = np.array([100 if i in rep else 50 for i in range(n)])
     for c in ("results_turnout", "results_dem", "results_gop"):
@@ -388,7 +389,7 @@ _REC = None
 _BASE = {}
 
 EST_LIST = ("turnout", "dem", "gop")
-ALPHA_LIST = (0.7, 0.9, 0.8)
+ALPHA_LIST = (0.7, 0.95, 0.8)  # 0.95: bound quantiles 0.025 / 0.975 need a third decimal
 
 
 def _fit_config_key(job):
@@ -399,6 +400,16 @@ def _fit_run(job, k, kind):
     from harness import synth
 
     pre, cur = synth.make_election(n=job["n"], seed=job["seed"], frac_reporting=job.get("frac", 0.7))
+    if job["seed"] % 3 == 0:
+        # very unequal unit sizes: every unit a thousand times larger, one reporting unit with a single baseline voter
+        # (the relative size of the smallest weight is what weight normalisation is sensitive to)
+        for c in ("baseline_turnout", "baseline_dem", "baseline_gop"):
+            pre[c] = pre[c] * 1000
+        for c in ("results_turnout", "results_dem", "results_gop"):
+            cur[c] = cur[c] * 1000
+        fid = cur[cur.percent_expected_vote >= 100].geographic_unit_fips.iloc[0]
+        pre.loc[pre.geographic_unit_fips == fid, ["baseline_turnout", "baseline_dem", "baseline_gop"]] = [1, 1, 0]
+        cur.loc[cur.geographic_unit_fips == fid, ["results_turnout", "results_dem", "results_gop"]] = [1, 1, 0]
     _REC.reset(k, kind)
     c, res = synth.run_client(
         pre,
